@@ -1,4 +1,5 @@
 """C01 — every accepted IDL yields Go code that compiles (partial: see DESIGN.md C01)."""
+import os
 import re
 import vlib
 
@@ -30,6 +31,15 @@ class S(vlib.Spec):
         "partial: the theorems cover collision renaming and the name tables (package-level names that go through the file table, struct members, method parameters); well-typedness of template text, and identifiers that templates compose without a table, are observed on generated programs, not proved",
     ]
     assumptions = ["programs are inside the validity envelope of idlgen (DESIGN.md 2.2); programs thriftgo rejects are counted (rejected_by_impl), not judged"]
+
+    def translators(self, ctx):
+        ok, log, binp = vlib.go_build("./cmd/translate-keywords", "translate-keywords")
+        if not ok:
+            raise RuntimeError("translate-keywords build failed: " + log[-1000:])
+        rc, out = vlib.sh([binp, "-repo", vlib.REPO, "-out", os.path.join(vlib.COQ, "Gen", "KeywordTable.v")])
+        if rc != 0:
+            raise RuntimeError("translate-keywords failed: " + out[-1000:])
+        return ["translate-keywords -> coq/Gen/KeywordTable.v: " + out.strip().splitlines()[-1]]
 
     def producer_args(self, ctx):
         return ["-seed", str(ctx.seed), "-tier", ctx.tier, "-out", ctx.out, "-thriftgo", ctx.thriftgo]
